@@ -13,25 +13,27 @@ claim("C09",
       "Proof for all trace IDs, ratios and parent contexts: the ratio sampler's decision is the stated function of the low 8 ID bytes and the bound (bit-vector exact), "
       "the bound is monotone in the ratio and within 2^63 (floating-point lemmas), always-on/off samplers, the parent-based dispatch table, default delegates, and in tracer.newSpan: "
       "trace-ID inheritance from a valid parent, new root ignores the parent, sampled flag <=> RecordAndSample, other flag bits kept, tracestate from the sampler, recording span <=> decision != Drop, generated IDs valid.",
-      _TB + "Third-party Sampler/IDGenerator implementations are assumed deterministic/valid (interface contracts); newRecordingSpan's field mapping is a trusted contract. "
+      _TB + "Third-party Sampler/IDGenerator implementations are assumed deterministic/valid (interface contracts); newRecordingSpan's field mapping (parent, span context, kind, name, start time, limits) is itself verified. "
       "Not decided: span-ID uniqueness (probabilistic).",
       "DESIGN.md 4 C09")
 claim("C13",
       "Proof of field-mapping postconditions for every input: OTLP span (IDs, name, kind table, start/end clamped at 0, dropped counts clamped to uint32, status, parent ID presence, flags), "
-      "clampUint32, status, spanKind, buildSpanFlags; OTLP log record in both the HTTP and gRPC copies against one shared contract text (severity table, timestamps, text, event name, flags, "
-      "dropped attribute count, trace/span ID presence).",
-      _TB + "ReadOnlySpan accessors are assumed deterministic (interface contracts). Not decided: protobuf wire round trip, attribute/link/event/body conversion loops, metric transforms, Zipkin, grouping.",
+      "clampUint32, status, spanKind, buildSpanFlags; the typed attribute value table (Value: eight kinds, slice kinds element by element), KeyValues (one output per input, in order), links and spanEvents (one output per input in order, "
+      "IDs copied into storage of their own - no two outputs share a backing array -, names, timestamps, dropped counts), the resource/scope grouping key of Spans; OTLP log record in both the HTTP and gRPC copies against one shared contract text "
+      "(severity table, timestamps, text, event name, flags, dropped attribute count, trace/span ID presence, LogAttrs/LogAttrValues one output per input).",
+      _TB + "ReadOnlySpan accessors are assumed deterministic (interface contracts); log.Value accessors and Record.WalkAttributes are extern contracts on another module. Not decided: protobuf wire round trip, metric transforms, Zipkin, gRPC-vs-HTTP payload equality beyond the shared contract text.",
       "DESIGN.md 4 C13")
 claim("C14",
       "Proof over the real retry loop (six generated copies, one contract text): success or a non-retryable error is returned at once and unchanged, the wait is max(throttle, backoff) >= throttle, "
-      "the loop gives up exactly when the time budget is or would be exceeded; HTTP evaluate retries exactly retryableError values (three copies); the gRPC retryable code table is exact (three copies). "
+      "the loop gives up exactly when the time budget is or would be exceeded (ghost monotone clock); HTTP evaluate retries exactly retryableError values (three copies); the gRPC retryable code table is exact and throttleDelay reports RetryInfo exactly when the status carries one, zero delay included (three copies); "
+      "newRequest of the three HTTP clients: the body factory is on every path bodyReader(...) over the immutable payload, so a retry re-sends the identical body. "
       "Known finding (listed in KNOWN_FINDINGS.txt, class-split so other violations still alarm): Retry-After seconds are used as nanoseconds.",
       _TB + "fn/evaluate/waitFunc are function values treated as deterministic; backoff, time.Since and grpc status accessors are external (havocked / assumed pure). "
       "Not decided: wall-clock behaviour, cancellation timing, HTTP status classification in the Upload* closures.",
       "DESIGN.md 4 C14")
 claim("C18",
       "Proof that collector.getName never panics for every non-empty instrument name, unit, namespace and type (the index into the trimmed name is guarded), and that counters end in _total; convertsToUnderscore table; "
-      "getAttrs returns label names and values of equal length in both branches; the metric-type table (histograms -> HISTOGRAM, monotonic sums -> COUNTER, other sums and gauges -> GAUGE); explicit histograms: the series count/sum are the data point's count/sum, "
+      "getAttrs returns label names and values of equal length in both branches and, when sanitising merges keys, only ever appends to the values collected for a key (a fresh list only for an absent key); the metric-type table (histograms -> HISTOGRAM, monotonic sums -> COUNTER, other sums and gauges -> GAUGE); explicit histograms: the series count/sum are the data point's count/sum, "
       "labels stay paired, bucket index in range given len(BucketCounts) > len(Bounds); sums/gauges: value and value type as specified; validateMetrics: family table only under the lock, first definition of a name is kept.",
       _TB + "model.EscapeName (prometheus/common) is assumed to return a non-empty name for a non-empty input; Prometheus client constructors are unknown calls. Not decided: registry acceptance, concurrent scrapes, cumulative bucket sums (no summation operator), exponential histograms, exemplars.",
       "DESIGN.md 4 C18")
@@ -41,7 +43,8 @@ claim("C20",
       _TB + "Options are unknown function values that may write the options struct arbitrarily; integer overflow in duration arithmetic is assumed absent (wraps, never panics). "
       "Also (four generated copies each, one contract text): the OTLP environment readers WithString/WithBool/WithDuration pass a set variable on exactly once and nothing for an unset or unparsable one, GetEnvValue is present iff non-empty after trimming, "
       "WithEnvCompression passes gzip for \"gzip\" and NO compression for every other set value (so a signal-specific \"none\" overrides a generic \"gzip\"). "
-      "Not decided: log SDK resolver chain, the ORDER of generic-before-specific readers in getOptionsFromEnv (a list of closures), option folds, wire behaviour.",
+      "Log SDK setting resolvers (clearLessThanOne, clampMax, fallback, getenv: a set value is never overridden, values below 1 are cleared) and the log exporters' getenv/getEnv/fallback resolvers (a resolver that gives up has read EVERY key: an unparsable specific value does not hide a valid generic one). "
+      "Not decided: the ORDER of generic-before-specific readers in getOptionsFromEnv (a list of closures), option folds, wire behaviour.",
       "DESIGN.md 4 C20")
 claim("C04",
       "Proof for every attribute list, limit and call order of the span mutators: bounded FIFO (evictedQueue.add for events and links) against a sequence view, per-event/-link attribute caps and dropped counts, "
@@ -72,11 +75,12 @@ claim("C17",
       "Proof for every attribute list and limit: dedup in place over the caller's array (keys unique, duplicates counted, no key lost), head, the index map of existing attributes, addAttrs/SetAttributes/AddAttributes: "
       "every store into the record's inline array or back slice is of a value that went through applyAttrLimits (abstract predicate established only by the limiter) - whether the key is new or overwrites an existing one - "
       "the count limit holds afterwards, dropped counters never decrease, type invariant 0 <= nFront <= 5; truncate as in C04. Known finding (class-split): a count limit of 0 keeps everything.",
-      _TB + "applyValueLimits (recursion over log.Value, other module) is a trusted contract; sync.Pool index maps are assumed empty and exclusively owned. Not decided: see evidence.",
+      _TB + "applyValueLimits (recursion over log.Value) is verified except for one `assumes` clause - the abstract predicate limitedV, which it establishes by definition; log.Value accessors are extern contracts on another module; sync.Pool index maps are assumed empty and exclusively owned. Not decided: see evidence.",
       "DESIGN.md 4 C17")
 claim("C02",
       "Proof for both number types and every map content: valueMap.measure adds exactly `value` to exactly the stream the limiter selects (new streams start at 0) and leaves every other stream untouched, under the mutex with the "
-      "guarded-by obligations on the stream map; sum.delta reports every stream's value over [old start, t], then clears the map and moves the start; sum.cumulative reports the same values and keeps everything.",
+      "guarded-by obligations on the stream map; sum.delta reports every stream's value over [old start, t], then clears the map and moves the start; sum.cumulative reports the same values and keeps everything; "
+      "int64Inst/float64Inst.aggregate hand the value to every measure function exactly once; pipeline.produce computes every instrument into its own output slot (scratch read and result written at the same index) with that instrument's name, description and unit.",
       _TB + "int64 overflow assumed absent; float64 only per step. Map iteration is an arbitrary present element per step. Not decided: reader goroutines, ghost-total lock invariant (see evidence).",
       "DESIGN.md 4 C02")
 claim("C07",
@@ -87,19 +91,22 @@ claim("C07",
       "DESIGN.md 4 C07")
 claim("C08",
       "Proof that the contract DIFFERENCE between the sum aggregator's delta and cumulative collection is exactly the property: same points (value, attributes, count of points), delta over [previous start, t] then forget and move the start, "
-      "cumulative over [fixed start, t] and keep.",
-      _TB + "Other aggregators (precomputed sum, gauge, histograms) and callback histories are not yet under contract.",
+      "cumulative over [fixed start, t] and keep. Same for the precomputed sum (delta = value minus the previous cycle's value per stream, `reported` = exactly this cycle's keys incl. the overflow stream), the last-value aggregator, "
+      "the explicit histogram (delta forgets, cumulative hands out copies of the counts) and the exponential histogram's delta (a reused data point keeps nothing stale, negative buckets included); observable instruments' callbacks write only their own pipeline's aggregators.",
+      _TB + "Map iteration is an arbitrary present, not yet visited element per step. Not decided: exponential histogram cumulative, callback histories across collections, exemplars.",
       "DESIGN.md 4 C08")
 claim("C12",
       "Proof for every map content and limit: limiter.Attributes answers the attribute set itself when it already has a stream or fewer than limit-1 streams exist, otherwise the single overflow set, and is the identity for non-positive limits; "
-      "sum and explicit-histogram measure index their stream map only with that answer's identity.",
+      "sum, last-value and explicit-histogram measure index their stream map only with that answer's identity; the attribute filter wrappers (Builder.filter) measure the filtered set and hand the dropped attributes on; "
+      "precomputedSum.delta remembers the overflow stream like any other; inserter.Instrument de-duplicates aggregate functions by the cache id.",
       _TB + "Not decided: the cardinality bound as a lock invariant, filters, view matching (see evidence).",
       "DESIGN.md 4 C12")
 claim("C15",
       "Proof for every processor list: UnregisterSpanProcessor changes nothing for a processor that is not registered and removes exactly one entry otherwise (copy-on-write), RegisterSpanProcessor appends a fresh state, "
       "TracerProvider.Shutdown is a no-op for every call that loses the compare-and-swap, empties the list on normal completion and stays shut down; simpleSpanProcessor calls its exporter only under its lock, only for sampled spans and never when it is nil - "
-      "including inside the goroutine Shutdown spawns (spawned closures are followed for panic obligations). Known finding (site canary): Shutdown with an already cancelled context.",
-      _TB + "sync.Once/atomic semantics assumed; frames of the list-publishing functions are marked unchecked. Not decided: metric/log providers, liveness.",
+      "including inside the goroutine Shutdown spawns (spawned closures are followed for panic obligations); batchSpanProcessor.Shutdown: every return is preceded by exactly one Once.Do; metric side: unify calls every registered function exactly once whatever the earlier ones return, "
+      "PeriodicReader.Shutdown shuts the exporter down also when the final flush fails. Known finding (site canary): Shutdown with an already cancelled context.",
+      _TB + "sync.Once/atomic semantics assumed; frames of the list-publishing functions are marked unchecked. Not decided: log provider, MeterProvider membership, liveness.",
       "DESIGN.md 4 C15")
 claim("C16",
       "Proof of deadlock freedom by lock order for the global meter side: a strict order meterProvider.mtx < meter.mtx < registration.unregMu is declared and every acquisition - direct Lock(), a call of a function whose contract declares `acquires`, "
@@ -118,9 +125,9 @@ claim("C06",
 claim("C01",
       "Partial, by contracts on the worker and the enqueue side: (1) the batch never holds more than MaxExportBatchSize spans for every MaxExportBatchSize >= 1 - lock invariant of batchMutex, maintained by an owner-thread rely/guarantee argument "
       "(only processQueue/drainQueue, which run in one goroutine, append; every other critical section only shrinks the batch: checked as a guarantee at each unlock); (2) the exporter is called only with batchMutex held, with the whole non-empty batch, and the batch is emptied in the same critical "
-      "section whether or not the export failed; (3) enqueueDrop/enqueueBlockOnQueueFull: an unsampled span is neither sent nor counted, a sampled one is sent exactly once or (non-blocking mode) counted as dropped exactly once, and the result says which; (4) OnEnd enqueues nothing once stopped is set or without an exporter. "
+      "section whether or not the export failed; (3) enqueueDrop/enqueueBlockOnQueueFull: an unsampled span is neither sent nor counted, a sampled one is sent exactly once or (non-blocking mode) counted as dropped exactly once, and the result says which; (4) OnEnd enqueues nothing once stopped is set or without an exporter; (5) ForceFlush enqueues its marker with the blocking enqueue and Shutdown reaches stopOnce.Do exactly once before every return. "
       "Known finding (class split with canary): MaxExportBatchSize == 0 exports batches of 1 and, on drain, of any size.",
-      _TB + "sync.Mutex/atomic semantics and channel send/receive pairing assumed; timers, contexts, the exporter and otel.Handle are unknown calls (frames and no-panic of these functions are marked unchecked). NOT decided (see spec/C01.json): delivery by the time ForceFlush/Shutdown returns, nothing after Shutdown, ForceFlush/Shutdown bodies.",
+      _TB + "sync.Mutex/atomic semantics and channel send/receive pairing assumed; timers, contexts, the exporter and otel.Handle are unknown calls (frames and no-panic of these functions are marked unchecked). NOT decided (see spec/C01.json): delivery by the time ForceFlush/Shutdown returns (a whole-history property over the channel hand-over), nothing after Shutdown.",
       "DESIGN.md 4 C01, 10.2")
 claim("C11",
       "Partial. Proved for every byte string: the baggage parsers (skipSpace, validateKey/validateValue and their per-character tests, parsePropertyInternal, parseProperty, parseMember, replaceInvalidUTF8Sequences, Parse) never index or slice out of range - "
@@ -128,7 +135,7 @@ claim("C11",
       "limits: a member over 4096 bytes and a header over 8192 bytes are rejected, Parse and New return at most 180 members, New at most 8192 bytes and only members that carry data. "
       "Immutability, for every map content: SetMember and DeleteMember write no existing map, return a fresh map holding exactly the old entries plus/minus the member (uses the visited-set model of range over a map; an obligation shows the map ranged over is not the one updated). "
       "Known finding (class split with canary): New does not enforce the 4096-byte member limit.",
-      _TB + "library models for strings.Cut/TrimSpace/Split, utf8.*, strings.Builder, url.PathUnescape (arbitrary result); two assumed axioms about UTF-8 validity; Member.String/Baggage.String trusted as deterministic. NOT decided (see spec/C11.json): the header round trip / Inject-Extract identity, last-duplicate-wins, serialisation layout and valueEscape.",
+      _TB + "library models for strings.Cut/TrimSpace/Split, utf8.*, strings.Builder, url.PathUnescape (arbitrary result); two assumed axioms about UTF-8 validity; Member.String/Baggage.String trusted as deterministic. valueEscape is under contract for memory safety and exact output length only. NOT decided (see spec/C11.json): the header round trip / Inject-Extract identity, last-duplicate-wins, serialisation layout.",
       "DESIGN.md 4 C11, 10.2")
 _todo = "check not built yet in this session (engine exists; contracts for this property's functions still to be written)"
 for _p in []:
